@@ -208,8 +208,8 @@ BGP_CORPUS = [
     "BO 0;BO 1;BA 0 1 1 -;BA 1 2 1 -;BP 0 0;H;Q 0 1;BM",
     "BO 0;BO 1;BA 0 1 1 -;BA 1 2 1 -;BS 1;H;Q 0 1;BO 0;BA 0 3 1 -;Q 0 1;BM",
 ]
-for _p in ("C02", "C13"):
-    CORPUS[_p] = CORPUS[_p] + BGP_CORPUS
+CORPUS["C13"] = CORPUS["C13"] + BGP_CORPUS
+CORPUS["C02"] = CORPUS["C02"] + BGP_CORPUS[:8]      # (the two racy cases of the known finding are C13's: each costs a minimisation)
 CORPUS["C15"] = CORPUS["C15"] + [c for c in BGP_CORPUS[:8] if "BM" in c]
 
 
